@@ -17,7 +17,10 @@ META = dict(
               "(`with state.auto_fork(m)`, also left by an exception) are a derived form of the model (State/StateScoped.v: set mode, body up to "
               "the first error, previous mode always put back) to which the theorems are lifted, executed through the real context manager and "
               "compared event by event (results + auto_fork_type + _last_fork inside and after every block), plus an implementation-side oracle "
-              "against the documented scoping written out",
+              "against the documented scoping written out; WeightedTensor values whose WEIGHT is computed by a node function are a second executable "
+              "value domain (State/StateWExec.v: value + boolean weight per entry, mix = what `_select` does = row-wise selection of value AND weight) for "
+              "which F_mix is proved and on which the same exact comparison runs (weights compared entry by entry; directed weight-flipping partial "
+              "reverts for every mask)",
     level_text="For every value type, every well-formed graph, every history of get/set/put/revert/partial revert/clone/mode "
                "switch/precompute/clear on any number of states: a successful read is the from-scratch evaluation of the current "
                "independent values, a read fails (input error) iff that evaluation needs an unset independent value, reads are "
